@@ -101,11 +101,20 @@ Sample(B, u) ==
   /\ UNCHANGED <<N, sumT, minT, ptr, cursor, size, maxp, seen>>
   /\ act' = [op |-> "sample", B |-> B, u |-> u]
 
+\* clear(): the buffer forgets everything, priorities included (max priority seen so far is kept)
+Clear ==
+  /\ sumT' = [k \in 1..(2 * Cap - 1) |-> 0]
+  /\ minT' = [k \in 1..(2 * Cap - 1) |-> Inf]
+  /\ ptr' = 0 /\ cursor' = 0 /\ size' = 0
+  /\ nops' = nops + 1
+  /\ UNCHANGED <<N, maxp, seen, out>>
+  /\ act' = [op |-> "clear"]
+
 AddAny    == \E w \in 1..N : Add(w)
 UpdateAny == \/ \E i \in 0..(size - 1), p \in Pris : Update(<<i>>, <<p>>)
              \/ \E i, j \in 0..(size - 1), p, q \in Pris : Update(<<i, j>>, <<p, q>>)
 SampleAny == \E B \in Bs : \E u \in [1..B -> 0..(UDen - 1)] : Sample(B, u)
-Next == AddAny \/ UpdateAny \/ SampleAny
+Next == AddAny \/ UpdateAny \/ SampleAny \/ Clear
 Spec == Init /\ [][Next]_vars
 
 --------------------------------------------------------------------------------
